@@ -324,3 +324,35 @@ pub fn family_i() -> Vec<String> {
     }
     out
 }
+
+/// family J: fresh-name pressure inside the simplifiers - `restrict_quantifier_domain` replaces a
+/// general variable by a fresh integer variable named after the first letter of the inner
+/// variable; every subset of the first candidates (S, S1, S2, S3) is already taken by other
+/// variables of the formula, at either sort
+pub fn family_j() -> Vec<String> {
+    let mut out = vec![];
+    for stem in ["I", "N"] {
+        for iv in [stem.to_string(), format!("{stem}1")] {
+            for mask in 0..16u32 {
+                for sort in ["", "$i"] {
+                    let mut taken: Vec<String> = vec![];
+                    for (bit, suffix) in ["", "1", "2", "3"].iter().enumerate() {
+                        let name = format!("{stem}{suffix}");
+                        if mask & (1 << bit) != 0 && name != iv {
+                            taken.push(format!("{name}{sort}"));
+                        }
+                    }
+                    let names = taken.join(" ");
+                    let h = if taken.is_empty() { "p".to_string() } else { taken.iter().map(|v| format!("q({v})")).collect::<Vec<_>>().join(" or ") };
+                    let sp = if names.is_empty() { String::new() } else { format!(" {names}") };
+                    out.push(format!("forall X{sp} (exists {iv}$i (X = {iv}$i and q({iv}$i)) -> {h})"));
+                    out.push(format!("forall X{sp} (exists {iv}$i ({iv}$i = X and q({iv}$i)) -> {h})"));
+                    out.push(format!("exists X{sp} (exists {iv}$i (X = {iv}$i and q({iv}$i)) and ({h}))"));
+                }
+            }
+        }
+    }
+    out.sort();
+    out.dedup();
+    out
+}
